@@ -26,6 +26,7 @@ Record Good (ob : nat -> obj) (n : nat) (W : tbl) (sn sd : list nat) : Prop := m
   g_rows : forall o k, oin (ob o) = true -> okey (ob o) = Some k -> exists v, W k = Some v /\ VA (ob o) k v;
   g_new : forall o, In o sn <-> (o < n /\ okey (ob o) = None /\ oatt (ob o) = true);
   g_del : forall o, In o sd -> oin (ob o) = true;
+  g_nodup : NoDup sn /\ NoDup sd;
   g_dels : forall o k, o < n -> okey (ob o) = Some k -> oatt (ob o) = true -> odelf (ob o) = true ->
            W k = None \/ exists o', oin (ob o') = true /\ okey (ob o') = Some k;
   (* an object in the deleted state was loaded when its DELETE was emitted *)
